@@ -16,6 +16,8 @@ inductive GateKind | open | write | read | failWrite | failOpen
 /-- One event delivered to the torrent's event loop by the harness. -/
 inductive Op
   | start | stop | verify | nop | persist | waitstop
+  /-- `stop` / `verify` given while the harness leaves the storage gates as they are (`hold=1`) -/
+  | stopHeld | verifyHeld
   | trk (hang : List Bool)             -- which stub trackers do not answer the `stopped` event from now on
   | gate (kind : GateKind) (on : Bool)
   | mutate (file : Option Nat) (how : Mut)
@@ -53,10 +55,13 @@ def closedVerdict (known : Bool) : String := if known then "skipped:peer-closed"
 /-- The handler part of an op. `known k` = the harness has ever created scripted peer `k`. -/
 def handle (s : St) (parked : Parked) (known : Nat → Bool) : Op → M × String × Parked
   | .start => (start (s, []), "", parked)
-  | .stop => (onSt (onSt (s, []) (·.stop false)) fun s => { s with gateOpen := false, gateRead := false }, "", parked)
+  -- the stop command withdraws a pending verification request (fix for finding C04-F6), then stops
+  | .stop => (onSt (onSt (s, []) fun s => ({ s with doVerify := false }).stop false) fun s => { s with gateOpen := false, gateRead := false }, "", parked)
+  | .stopHeld => (onSt (s, []) fun s => ({ s with doVerify := false }).stop false, "", parked)
   | .verify =>
     -- Torrent.Verify() deletes the persisted bitfield before it hands the command to the loop
     (onSt (handleVerifyCommand ({ s with persisted := none }, [])) fun s => { s with gateOpen := false, gateRead := false }, "", parked)
+  | .verifyHeld => (handleVerifyCommand ({ s with persisted := none }, []), "", parked)
   | .nop => ((s, []), "", parked)
   | .trk _ => ((s, []), "", parked)
   | .waitstop =>
